@@ -4,6 +4,9 @@ PAIRS = [
     dict(name="os_free_ex", harness=H, enforce="_mi_os_free_ex", replace=["_mi_prim_free", "_mi_os_good_alloc_size"], label="P",
          functions=["_mi_os_free_ex", "mi_os_prim_free"], min_obligations=8,
          replay={"src": "replay_src/witness_c11.c"}),
+    # the rounding function whose result the three pairs around it use as the logical g_good: enforced against its specification on the real os.c
+    dict(name="good_alloc_size", entry="h_good_alloc_size", harness=H, enforce="_mi_os_good_alloc_size/c_good_alloc_size_spec", replace=[], label="P",
+         functions=["_mi_os_good_alloc_size", "_mi_os_page_size", "_mi_align_up"], timeout=300),
     dict(name="os_alloc", harness=H, enforce="_mi_os_alloc", replace=["_mi_prim_alloc", "_mi_os_good_alloc_size", "mi_option_is_enabled", "mi_option_get"], label="P",
          functions=["_mi_os_alloc", "mi_os_prim_alloc", "mi_os_prim_alloc_at"]),
     dict(name="os_alloc_aligned", harness=H, enforce="_mi_os_alloc_aligned", replace=["_mi_prim_alloc", "_mi_prim_free", "_mi_prim_commit", "_mi_os_good_alloc_size", "mi_option_is_enabled", "mi_option_get"], label="P",
@@ -23,3 +26,6 @@ PAIRS += [_sc2.pairs()[k] for k in ('segment_page_free',)]      # last page free
 PAIRS += [_sc2.pairs()['page_clear']]      # a freed page is wiped (no stale list pointers), its span returned once, the segment counts one page less
 PAIRS += [_pc.collect_retired_pair()]      # a retired (empty, kept) page is found again and freed when its count-down ends or the collect is forced
 PAIRS += [_sc2.pairs()['segment_free']]      # a segment with no page in use is handed to mi_segment_os_free exactly once (unless dont_free)
+# the per-thread segment accounting that mi_segment_os_alloc / mi_segment_os_free drive (recorder there): exact on the real function
+PAIRS += [dict(name="track_size", entry="h_track_size", harness="harness/seg_alloc.c", enforce="mi_segments_track_size/c_track_size_spec", config="SCALED", label="P", unwind=14,
+               replace=[], functions=["mi_segments_track_size"], timeout=300)]
